@@ -41,7 +41,8 @@ def run(tier: str, rep: Report):
     shapes = [s for i, s in enumerate(shapes) if i % (6 if tier == "quick" else 2) == 0]
     rep.cov["document_shapes"] = len(shapes)
     if tier == "quick":
-        terms = [t for k, t in enumerate(terms) if t[1][0] in ("atom", "complex") or k % 4 == 0]
+        # (a container that holds TWO NaN objects is always kept: its document lists both)
+        terms = [t for k, t in enumerate(terms) if t[1][0] in ("atom", "complex") or k % 4 == 0 or "nan2" in json.dumps(t[1])]
     pool = Pool(hosts, per_version=2)
     files = []
     try:
